@@ -156,7 +156,7 @@ impl Property for C01 {
         "C01"
     }
     fn rule(&self) -> String {
-        "Cases: (LHS operand any zoo type/length/provenance, RHS vector of any type/length/provenance or native integer, op in {+,-,*}, one of 6 forms). Enumerated: all (n,a,m,b) n,m<=3 (quick)/<=6 (thorough) x 19x19 pairings x 3 ops; all (n,a) x integer lattice x 19 x 6 native types; word-pattern lattice {0,1,MAX-1,MAX,MSB,MSB-1}^words for both operands at lengths {kw-1,kw,kw+1,C} on every multi-word type (RHS same type and Bvd / Bvf<u8,17>), all 2^16 value pairs of Bvf<u8,1> at n=m=8; thorough adds 3-word lattices and all values of Bvf<u8,2> x {Bvf<u8,2>,Bvd} for n<=11. Also (through the verif-hooks re-export) the word primitives cadd/csub/wmul/mask of all six word types on an integer lattice squared (u8 exhaustively) and the slice re-chunking get_int/set_int for all 36 word-type pairs. Random: proptest with related pairs (b = a, a+-1, 2^n-a, one bit flipped). Oracle: BigUint/u128 (val a op val b) mod 2^n + observer battery. Non-trivial: n>0, both values non-zero and (the true result wrapped: >= 2^n or < 0; or a carry/borrow crossed a storage-word boundary of the LHS; or for * both operands have >= 2 non-zero words). Distinct by hash of the whole case.".into()
+        "Cases: (LHS operand any zoo type/length/provenance, RHS vector of any type/length/provenance or native integer, op in {+,-,*}, one of 6 forms). Enumerated: all (n,a,m,b) n,m<=4 (quick)/<=6 (thorough) x 19x19 pairings x 3 ops; all (n,a) x integer lattice x 19 x 6 native types; word-pattern lattice {0,1,MAX-1,MAX,MSB,MSB-1}^words for both operands at lengths {kw-1,kw,kw+1,C} on every multi-word type (RHS same type and Bvd / Bvf<u8,17>), all 2^16 value pairs of Bvf<u8,1> at n=m=8; thorough adds 3-word lattices and all values of Bvf<u8,2> x {Bvf<u8,2>,Bvd} for n<=11. Also (through the verif-hooks re-export) the word primitives cadd/csub/wmul/mask of all six word types on an integer lattice squared (u8 exhaustively) and the slice re-chunking get_int/set_int for all 36 word-type pairs. Random: proptest with related pairs (b = a, a+-1, 2^n-a, one bit flipped). Oracle: BigUint/u128 (val a op val b) mod 2^n + observer battery. Non-trivial: n>0, both values non-zero and (the true result wrapped: >= 2^n or < 0; or a carry/borrow crossed a storage-word boundary of the LHS; or for * both operands have >= 2 non-zero words). Distinct by hash of the whole case.".into()
     }
     fn random_cases(&self, tier: Tier) -> u64 {
         tier.pick(300000, 12800000)
@@ -182,7 +182,7 @@ impl Property for C01 {
         prop_oneof![9 => vec_case, 3 => nat_case, 2 => word, 1 => chunk].boxed()
     }
     fn exhaustive_subspaces(&self, tier: Tier) -> Vec<String> {
-        let k = tier.pick(3, 6);
+        let k = tier.pick(4, 6);
         let mut v = vec![
             format!("all values of both operands for all lengths n,m<={} x 19x19 type pairings x {{+,-,*}} (form rotates)", k),
             format!("all values for n<={} x integer lattice x 19 LHS types x 6 native RHS types x {{+,-,*}}", k),
@@ -195,7 +195,7 @@ impl Property for C01 {
         v
     }
     fn enumerate(&self, tier: Tier, sh: &mut Shard, f: &mut dyn FnMut(C01Case) -> bool) {
-        let k = tier.pick(3, 6);
+        let k = tier.pick(4, 6);
         let mut rot = 0usize;
         let mut emit = |lt: Tid, a: &Bits, b: Rhs, op: BinOp, f: &mut dyn FnMut(C01Case) -> bool| -> bool {
             rot += 1;
@@ -214,6 +214,18 @@ impl Property for C01 {
                                 for op in ARITH {
                                     if !emit(lt, &a, Rhs::V(Operand::canon(rt, b.clone())), op, f) {
                                         return;
+                                    }
+                                    // spare capacity / heap-mode-although-short operands of the unbounded types
+                                    for pa in scope_provs(lt) {
+                                        for pb in scope_provs(rt) {
+                                            if pa == Prov::Canon && pb == Prov::Canon {
+                                                continue;
+                                            }
+                                            let c = C01Case::Op(C01Op { a: Operand { ty: lt, bits: a.clone(), prov: pa.clone() }, b: Rhs::V(Operand { ty: rt, bits: b.clone(), prov: pb }), op, form: FORMS[(n + m) % 6] });
+                                            if !f(c) {
+                                                return;
+                                            }
+                                        }
                                     }
                                 }
                             }
